@@ -251,9 +251,9 @@ prop("C10",
 prop("C11",
      level="exploration",
      technique="bounded exhaustive enumeration (E2) of hostile config files and path-length combinations under ASan with spawn traps (system/fork/exec/popen interposed, positive controls), temp-file matrix, and explicit-state BFS over init/register/parse/expand/free cycles with a heap baseline",
-     rule="(1) every file of <= N lines over 24 hostile line kinds x 4 file-shape variants + 6 special files: parse returns, ASan/UBSan silent, nothing spawned, files closed, file stack restored; "
+     rule="(1) every file of <= N lines over 29 hostile line kinds x 4 file-shape variants, 6 special files and 64 program-name-length cases: parse returns, ASan/UBSan silent, nothing spawned, files closed, file stack restored; "
           "(2) every (file length x dir x pathlist shape) combination up to 70000 characters through spifconf_find_file; (3) spawn-trap positive controls; spiftool_temp_file for every umask x TMPDIR/TMP x template length: mode 0600, 50 distinct names; "
-          "(4) BFS over lifecycle histories (two init..free cycles): heap back at the baseline after every free, %get answers per cycle; registration counter sweep 0..300; non-trivial = every case except the shortest paths",
+          "(4) BFS over lifecycle histories (two init..free cycles, incl. parse through an emulated preprocessor, lines given outside a file, a queued stream): heap back at the baseline after every free, %get answers per cycle, temporary files gone; registration counter sweep 0..300; non-trivial = every case except the shortest paths",
      bounds={"quick": "N=2 hostile lines; lifecycle depth 7", "thorough": "N=3 hostile lines; lifecycle depth 9"},
      runs=[dict(name="h_confsafe", sources=["harness/h_confsafe.c"], profile="asan", exclude=["conf.c"], wraps=_CONFWRAPS, args={"quick": ["--N=2", "--depth=7"], "thorough": ["--N=3", "--depth=9"]})],
      deadline={"quick": 240, "thorough": 3000})
